@@ -34,6 +34,9 @@ INT_NAMES = PREFIXES + [(C(b'a'), C(b'b'), C(b'x')), (C(b'a'), C(b'b'), C(b'c'),
 INT_NAMES = [n for n in INT_NAMES if n]     # an Interest needs at least one component
 # prefixes with a zero-length component (documented: '' in a component list, '//' in a URI), used by the random histories
 EMPTY_COMP_PREFIXES = [(C(b'a'), C(b'')), (C(b'a'), C(b''), C(b's')), (C(b''),)]
+LONG = {n: C(bytes([65 + n % 26]) * n) for n in (252, 253, 254, 255, 256)}
+LONG_COMP_PREFIXES = [(C(b'a'), LONG[n]) for n in LONG] + [(LONG[253],), (C(b'a'), LONG[254], C(b's'))]
+LONG_COMP_NAMES = [(C(b'a'), LONG[n], C(b'x')) for n in LONG] + [(LONG[253], C(b'q')), (C(b'a'), LONG[254], C(b's'), C(b'y')), (C(b'a'), LONG[255])]
 EMPTY_COMP_NAMES = [(C(b'a'), C(b''), C(b's'), C(b'x')), (C(b'a'), C(b's'), C(b'x')), (C(b'a'), C(b''), C(b'y')), (C(b''), C(b'q')), (C(b'a'), C(b's'))]
 
 
@@ -316,6 +319,22 @@ def run_history(ctx, rng, kind, ops, label):
                         ctx.event('observation:bare-register-returned-false')
                 except Exception as e:   # noqa
                     res['viol'].append((f'bare-register-raises:{kind}:{type(e).__name__}', f'register() without a handler raised {e!r}', w))
+            elif op[0] == 'attach-async-handler':
+                pre = tuple(op[1])
+                if pre in attached or kind != 'v2':
+                    continue
+                form, fl = form_of(rng, pre)
+                w['form'] = fl
+
+                async def coro_handler(name, app_param, reply, context):
+                    return None
+                try:
+                    T.app.attach_handler(form, coro_handler)
+                    # accepted: take it off again (an async handler is never awaited by the library - nothing to observe through it)
+                    T.app.detach_handler(form_of(rng, pre)[0])
+                    ctx.event('async-handler-attached-and-detached')
+                except Exception:   # noqa
+                    ctx.event('async-handler-refused')      # refused: then nothing is attached there - and nothing else has changed
             elif op[0] == 'register-bare-given-up':
                 form, fl = form_of(rng, tuple(op[1]))
                 w['form'] = fl
@@ -858,8 +877,8 @@ def run(ctx):
         ops = []
         for _ in range(rng.randint(4, 25)):
             k = rng.random()
-            pool_p = PREFIXES + (EMPTY_COMP_PREFIXES if i % 2 else [])
-            pool_n = INT_NAMES + (EMPTY_COMP_NAMES if i % 2 else [])
+            pool_p = PREFIXES + (EMPTY_COMP_PREFIXES if i % 2 else []) + (LONG_COMP_PREFIXES if i % 5 == 2 else [])
+            pool_n = INT_NAMES + (EMPTY_COMP_NAMES if i % 2 else []) + (LONG_COMP_NAMES if i % 5 == 2 else [])
             if k < 0.35:
                 ops.append(('attach', rng.choice(pool_p)))
             elif k < 0.40 and kind == 'v2':
@@ -878,6 +897,8 @@ def run(ctx):
                     ops.append(('detach', rng.choice(pool_p)))
             elif k < 0.62:
                 ops.append(('interest-handler-raises', rng.choice(pool_n)))
+            elif k < 0.66 and kind == 'v2':
+                ops.append(('attach-async-handler', rng.choice(pool_p)))
             else:
                 ops.append(('interest', rng.choice(pool_n)))
         run_history(ctx, rng, kind, ops, 'random')
